@@ -47,6 +47,10 @@ package engine
 //@   ensures result == this.$upgraded
 //@ func Socket.MaybeUpgrade(transport)
 //@   modifies *
+//@ func Socket.Close(discard)
+//@   modifies *
+//@ func BaseServer.Cleanup()
+//@   modifies *
 
 // ---- C05: admission checks in their fixed precedence ------------------------------------------------------
 // transport known and enabled > Origin well-formed > session id known and bound to the same transport unless
@@ -84,8 +88,52 @@ package engine
 //@   noeffect
 //@   ensures result != nil   // set by Construct
 //@ func BaseServer.Upgrades(transport)
-//@   opt stable
-//@   noeffect
+//@   requires maphas(transports.Transports(), transport)
+//@   modifies nothing
+//@   ensures result != nil
+// upgrades of a transport: none when upgrades are disabled, otherwise what the transport's builder names
+//@ func (*baseServer).Upgrades(transport)
+//@   props C06
+//@   requires bs != nil && bs.opts != nil && maphas(transports.Transports(), transport)
+//@   modifies nothing
+//@   ensures [C06.upgrades.off] !bs.opts.AllowUpgrades() ==> result == ret(types.NewSet, 1) && len(arg(types.NewSet, 1, keys)) == 0 && calls(transports.TransportCtor.UpgradesTo) == 0
+//@   ensures [C06.upgrades.on]  bs.opts.AllowUpgrades() ==> calls(transports.TransportCtor.UpgradesTo) == 1 && result == ret(transports.TransportCtor.UpgradesTo, 1)
+//@   callsite transports.TransportCtor.UpgradesTo#1
+//@     assert [C06.upgrades.builder] $this == mapval(ret(transports.Transports, 1), transport)
+
+// the upgrades a session advertises: targets of its transport that the server enables, without touching any shared set
+//@ func (*socket).getAvailableUpgrades()
+//@   props C06
+//@   requires sockLive(s)
+//@   modifies nothing
+//@   let enabled = s.server.Opts().Transports()
+//@   loop 1 invariant forall k int :: 0 <= k && k < len(availableUpgrades) ==> uf_b_setHas(enabled, availableUpgrades[k], enabled.$setver)
+//@   loop 1 invariant len(availableUpgrades) <= $i
+//@   loop 1 invariant cap(availableUpgrades) == 0 || fresh(backing(availableUpgrades))   // the result is built in storage of its own
+//@   ensures [C06.upg.enabled] forall k int :: 0 <= k && k < len(result) ==> uf_b_setHas(enabled, result[k], enabled.$setver)
+//@   ensures [C06.upg.source]  calls(BaseServer.Upgrades) == 1 && arg(BaseServer.Upgrades, 1, transport) == ret(transports.Transport.Name, 1) && arg(transports.Transport.Name, 1, this) == s.Transport() && len(result) <= len(ret((*types.Set).Keys, 1))
+//@   ensures [C06.upg.pure]    calls((*types.Set).Delete) == 0 && calls((*types.Set).Add) == 0 && enabled.$setver == old(enabled.$setver)
+
+// the session opens: state open, then the open packet carrying exactly the five advertised values, then the configured
+// initial packet (if any), then the open event and the heartbeat mode of the session's revision
+//@ func (*socket).onOpen()
+//@   props C06, C03, C07
+//@   requires sockLive(s) && s.ReadyState() == "opening"
+//@   modifies *
+//@   let initial = s.server.Opts().InitialPacket()
+//@   ensures [C06.open.state,C03.open] calls((*socket).SetReadyState) == 1 && arg((*socket).SetReadyState, 1, state) == "open" && before((*socket).SetReadyState, 1, (*socket).sendPacket, 1)
+//@   ensures [C06.open.first]   calls((*socket).sendPacket) >= 1 && arg((*socket).sendPacket, 1, packetType) == packet.OPEN && arg((*socket).sendPacket, 1, data) == ret(types.NewStringBuffer, 1) && arg(types.NewStringBuffer, 1, buf) == ret(json.Marshal, 1, 0)
+//@   ensures [C06.open.initial] initial != nil ==> calls((*socket).sendPacket) == 2 && arg((*socket).sendPacket, 2, packetType) == packet.MESSAGE && arg((*socket).sendPacket, 2, data) == initial
+//@   ensures [C06.open.noinitial] initial == nil ==> calls((*socket).sendPacket) == 1
+//@   ensures [C06.open.event]   emitted(s.EventEmitter, "open") == 1
+//@   ensures [C06.open.mode,C07.mode] (old(s.protocol) == 3 ==> calls((*socket).resetPingTimeout) == 1 && calls((*socket).schedulePing) == 0) && (old(s.protocol) != 3 ==> calls((*socket).schedulePing) == 1 && calls((*socket).resetPingTimeout) == 0)
+//@   ensures [C06.open.sid]     calls(transports.Transport.SetSid) == 1 && arg(transports.Transport.SetSid, 1, sid) == old(s.id)
+//@   callsite json.Marshal#1
+//@     assert [C06.open.json.sid]      mapval(unbox($v, map[string]any), "sid") == iface(s.id) && maphas(unbox($v, map[string]any), "sid")
+//@     assert [C06.open.json.upgrades] maphas(unbox($v, map[string]any), "upgrades") && typeis(mapval(unbox($v, map[string]any), "upgrades"), []string) && unbox(mapval(unbox($v, map[string]any), "upgrades"), []string) == ret((*socket).getAvailableUpgrades, 1)
+//@     assert [C06.open.json.interval] maphas(unbox($v, map[string]any), "pingInterval") && mapval(unbox($v, map[string]any), "pingInterval") == iface(int64(s.server.Opts().PingInterval() / time.Millisecond))
+//@     assert [C06.open.json.timeout]  maphas(unbox($v, map[string]any), "pingTimeout") && mapval(unbox($v, map[string]any), "pingTimeout") == iface(int64(s.server.Opts().PingTimeout() / time.Millisecond))
+//@     assert [C06.open.json.maxpayload] maphas(unbox($v, map[string]any), "maxPayload") && mapval(unbox($v, map[string]any), "maxPayload") == iface(s.server.Opts().MaxHttpBufferSize())
 
 // ---- session (engine/socket.go) --------------------------------------------------------------------------
 // sockOK: what MakeSocket establishes; sockLive: what holds from Construct on (a transport is attached and the
@@ -126,10 +174,42 @@ package engine
 //@   modifies *
 //@   ensures [C08.settransport] s.Transport() == transport && s.ReadyState() == old(s.ReadyState())
 //@   ensures [C08.setlisteners] calls(types.EventEmitter.On) == 3 && calls(types.EventEmitter.Once) == 2 && calls((*types.Slice).Push) == 1
+// the cleanup registered for a transport detaches all five session listeners from it, so that a discarded transport
+// can no longer close, feed or flush the session
+//@ func (*socket).setTransport$6()
+//@   props C03, C08
+//@   requires transport != nil
+//@   modifies nothing
+//@   ensures [C03.detach.all] calls(types.EventEmitter.RemoveListener) == 5
+//@   ensures [C03.detach.each] ncalls(types.EventEmitter.RemoveListener, evt == "error") == 1 && ncalls(types.EventEmitter.RemoveListener, evt == "ready") == 1 && ncalls(types.EventEmitter.RemoveListener, evt == "packet") == 1 && ncalls(types.EventEmitter.RemoveListener, evt == "drain") == 1 && ncalls(types.EventEmitter.RemoveListener, evt == "close") == 1
+//@   ensures [C03.detach.same] ncalls(types.EventEmitter.RemoveListener, this == iface(transport)) == 5
+
+// ---- heartbeat timers (C07): the timer API is trusted (C19 n/a); what is armed, with which duration, and what the
+// timer bodies do is proved here
 //@ func (*socket).resetPingTimeout()
+//@   props C07
+//@   requires s != nil && s.server != nil
+//@   modifies s.pingTimeoutTimer
+//@   ensures [C07.deadline] calls(utils.ClearTimeout) == 1 && calls(utils.SetTimeout) == 1 && before(utils.ClearTimeout, 1, utils.SetTimeout, 1) && arg(utils.ClearTimeout, 1, timer) == old(s.pingTimeoutTimer.v)
+//@   ensures [C07.deadline.duration] arg(utils.SetTimeout, 1, sleep) == (s.protocol == 3 ? s.server.Opts().PingInterval() + s.server.Opts().PingTimeout() : s.server.Opts().PingTimeout())
+//@   ensures [C07.deadline.stored] s.pingTimeoutTimer.v == ret(utils.SetTimeout, 1)
+//@ func (*socket).resetPingTimeout$1()
+//@   props C07, C03
+//@   requires sockLive(s)
 //@   modifies *
+//@   ensures [C07.timeoutcloses,C03.pingtimeout] old(s.ReadyState()) != "closed" ==> calls((*socket).OnClose) == 1 && arg((*socket).OnClose, 1, reason) == "ping timeout"
+//@   ensures [C07.timeoutidle] old(s.ReadyState()) == "closed" ==> nevents() == 0
 //@ func (*socket).schedulePing()
+//@   props C07
+//@   requires s != nil && s.server != nil
+//@   modifies s.pingIntervalTimer
+//@   ensures [C07.pingarmed] calls(utils.SetTimeout) == 1 && arg(utils.SetTimeout, 1, sleep) == s.server.Opts().PingInterval() && s.pingIntervalTimer.v == ret(utils.SetTimeout, 1)
+// the ping timer body: the ping goes out and the pong deadline starts at once - not when (or if) the ping is flushed
+//@ func (*socket).schedulePing$1()
+//@   props C07
+//@   requires sockLive(s)
 //@   modifies *
+//@   ensures [C07.pingsent] calls((*socket).sendPacket) == 1 && arg((*socket).sendPacket, 1, packetType) == packet.PING && calls((*socket).resetPingTimeout) == 1 && before((*socket).sendPacket, 1, (*socket).resetPingTimeout, 1)
 
 //@ func (*socket).resetPingTimeoutDuration()
 //@   props C07
@@ -143,6 +223,7 @@ package engine
 //@   modifies *
 //@   let rs = old(s.ReadyState())
 //@   ensures [C03.sendafterclose,C01.discard] rs == "closing" || rs == "closed" ==> nevents() == 0
+//@   ensures s.Transport() == old(s.Transport())
 //@   ensures [C01.accept] rs != "closing" && rs != "closed" ==> calls((*types.Slice).Push) >= 1 && emitted(s.EventEmitter, "packetCreate") == 1 && calls((*socket).flush) == 1
 //@   ensures [C18.packetCreateFirst] rs != "closing" && rs != "closed" ==> before(types.EventEmitter.Emit, 1, (*types.Slice).Push, 1) && before((*types.Slice).Push, 1, (*socket).flush, 1)
 //@   callsite (*types.Slice).Push#1
@@ -223,6 +304,7 @@ package engine
 //@   let writable = old(s.Transport().Writable())
 //@   let pending  = old(len(s.writeBuffer.elements)) > 0
 //@   ensures [C03.flushclosed] closed ==> nevents() == 0
+//@   ensures s.Transport() == old(s.Transport())
 //@   ensures [C01.gate]    !(!closed && writable && pending) ==> calls(transports.Transport.Send) == 0 && emitted(s.EventEmitter, "flush") == 0 && emitted(s.EventEmitter, "drain") == 0
 //@   ensures [C01.handoff] !closed && writable && pending ==> calls(transports.Transport.Send) == 1 && arg(transports.Transport.Send, 1, packets) == ret((*types.Slice).AllAndClear, 1)
 //@   ensures [C18.events]  !closed && writable && pending ==> emitted(s.EventEmitter, "flush") == 1 && emitted(s.EventEmitter, "drain") == 1 && emitted(s.server, "flush") == 1 && emitted(s.server, "drain") == 1
@@ -231,6 +313,14 @@ package engine
 //@   ensures [C18.unlock]  heldmode(s.flushMu) == 0
 //@   callsite types.EventEmitter.Emit#1
 //@     assert [C18.flushbatch] $evt == "flush" && len($args) == 1
+// the writability test, the buffer swap and the hand-off form one critical section: two flushes can neither both see the
+// transport writable nor hand their batches over in the opposite order
+//@   callsite transports.Transport.Writable#1
+//@     assert [C01.serialised.test] held(s.flushMu)
+//@   callsite (*types.Slice).AllAndClear#1
+//@     assert [C01.serialised.swap] held(s.flushMu) && $s == s.writeBuffer
+//@   callsite transports.Transport.Send#1
+//@     assert [C01.serialised.send] held(s.flushMu)
 //@   callsite types.EventEmitter.Emit
 //@     assert [C18.noemitunderlock] !held(s.flushMu)
 
@@ -272,7 +362,7 @@ package engine
 //@   let ptype   = old(unbox(datas[0], *packet.Packet).Type)
 //@   let cand    = old(transport)
 //@   let isProbe = ptype == packet.PING && ret((*strings.Builder).String, 1) == "probe"
-//@   let isUpgrade = !isProbe && ptype == packet.UPGRADE && ret((*socket).ReadyState, 1) != "closed"
+//@   let isUpgrade = !isProbe && ptype == packet.UPGRADE && old(s.ReadyState()) != "closed"
 //@   ensures [C08.probe.pong]  isProbe ==> calls(transports.Transport.Send) == 1 && arg(transports.Transport.Send, 1, this) == cand && len(arg(transports.Transport.Send, 1, packets)) == 1 && arg(transports.Transport.Send, 1, packets)[0].Type == packet.PONG
 //@   ensures [C08.probe.event] isProbe ==> emitted(s.EventEmitter, "upgrading") == 1 && calls(utils.SetInterval) == 1 && calls(utils.ClearInterval) == 1 && before(utils.ClearInterval, 1, utils.SetInterval, 1)
 //@   ensures [C08.probe.kept]  isProbe ==> calls(cleanup) == 0 && calls((*socket).setTransport) == 0 && calls((*socket).clearTransport) == 0 && calls((*socket).OnClose) == 0 && calls(transports.Transport.Close) == 0 && calls(transports.Transport.Discard) == 0
@@ -280,7 +370,7 @@ package engine
 //@   ensures [C08.switch.order] isUpgrade ==> before(cleanup, 1, transports.Transport.Discard, 1) && before(transports.Transport.Discard, 1, (*socket).clearTransport, 1) && before((*socket).clearTransport, 1, (*socket).setTransport, 1) && before((*socket).setTransport, 1, (*socket).flush, 1)
 //@   ensures [C08.switch.once] isUpgrade ==> ncalls((*sync/atomic.Bool).Store, val) == 1
 //@   ensures [C08.reject]      !isProbe && !isUpgrade ==> calls(cleanup) == 1 && calls(transports.Transport.Close) == 1 && arg(transports.Transport.Close, 1, this) == cand && before(cleanup, 1, transports.Transport.Close, 1)
-//@   ensures [C08.reject.kept] !isProbe && !isUpgrade ==> calls((*socket).setTransport) == 0 && calls((*socket).clearTransport) == 0 && calls((*socket).OnClose) == 0 && calls(transports.Transport.Discard) == 0 && calls((*socket).flush) == 0 && calls((*sync/atomic.Bool).Store) == 0 && emitted(s.EventEmitter, "upgrade") == 0
+//@   ensures [C08.reject.kept,C03.closedkept] !isProbe && !isUpgrade ==> calls((*socket).setTransport) == 0 && calls((*socket).clearTransport) == 0 && calls((*socket).OnClose) == 0 && calls(transports.Transport.Discard) == 0 && calls((*socket).flush) == 0 && calls((*sync/atomic.Bool).Store) == 0 && emitted(s.EventEmitter, "upgrade") == 0
 //@   callsite transports.Transport.Discard#1
 //@     assert [C08.switch.discardold] $this == old(s.Transport())
 
@@ -373,6 +463,20 @@ package engine
 //@   modifies bs.clients.$mapver, bs.clientsCount
 //@   ensures [C04.unregister] calls((*types.Map).Delete) == 1 && arg((*types.Map).Delete, 1, key) == id && !uf_b_mapHas(bs.clients, id, bs.clients.$mapver)
 //@   ensures [C04.minusone]   bs.clientsCount.v == old(bs.clientsCount.v) - 1
+
+// ---- shutdown (C12, C04): every session of the table is force-closed; the table itself is edited only by each
+// session's own close listener (Handshake$2), never wholesale
+//@ func (*baseServer).Close()
+//@   props C12, C04
+//@   requires bs != nil && bs.clients != nil && bs._proto_ != nil
+//@   modifies *
+//@   ensures [C12.shutdownrange] calls((*types.Map).Range) == 1 && arg((*types.Map).Range, 1, m) == bs.clients
+//@   ensures [C04.shutdownhandsoff] calls((*types.Map).Clear) == 0 && calls((*types.Map).Delete) == 0 && calls((*types.Map).Store) == 0 && calls((*sync/atomic.Uint64).Store) == 0 && calls((*sync/atomic.Uint64).Add) == 0
+//@ func (*baseServer).Close$1(_, client)
+//@   props C12
+//@   requires client != nil
+//@   modifies *
+//@   ensures [C12.shutdowneach] calls(Socket.Close) == 1 && arg(Socket.Close, 1, discard) && arg(Socket.Close, 1, this) == client && result
 
 // ---- C10: the limit is installed on the connection before the first read --------------------------------
 //@ func (*server).OnWebTransportSession(ctx, wt)
